@@ -547,7 +547,7 @@ def run(tier, seed):
             info[n_]["ancestors"] = a_
         cov["installed"] = dict(i_tot, schemas=info, wall_s=round(time.time() - t1, 1), pair_corpora=f"first {abs(c12.PAIR_K[tier])} value(s) + omission" + (" + None" if c12.PAIR_K[tier] > 0 else ""))
     pick = lambda xs, k: [xs[i] for i in range(0, len(xs), max(1, len(xs) // k))][:k]  # noqa: E731
-    viols.sort(key=lambda v: len(json.dumps(v["input"], default=str)))
+    viols.sort(key=lambda v: (str((v["input"].get("item") or {}).get("variant", "single")) != "single", len(json.dumps(v["input"], default=str))))
     cov.update(
         evaluations=evals + xevals + a_tot["evals"] + i_tot["evals"] + len(items) + len(xitems),
         distinct_nontrivial=accepted_nontrivial + refused_override + a_tot["distinct"] + i_tot["distinct"],
